@@ -106,7 +106,7 @@ def make_frame(rng, saturated=False):
     if weights and rng.random() < 0.5:
         # the unit of a weights column is arbitrary (normalised to sum to one, sampling fractions per million, ...):
         # every estimating equation is homogeneous in it
-        wunit = rng.choice([1e-6, 1.0 / float(df['wt'].sum()), 1e3])
+        wunit = rng.choice([1e-3, 1.0 / float(df['wt'].sum()), 1e3])      # (1e-6 makes statsmodels' absolute deviance tolerance stop the propensity fit early)
         df['wt'] = df['wt'] * wunit
     idx = rng.choice(['range', 'shift', 'shuffle'])
     if idx == 'shift':
@@ -570,6 +570,10 @@ def check_one(ctx, fails, df, meta, f, mods, cl, searches, pay, r):
             # the search did not find the root: alpha ~ 0 only because |psi| ran away (H(psi) separates A), the simplex
             # collapsed at a kink of sum|alpha|, or the iteration limit was hit
             kind = 'not-converged' if not s['success'] else ('spurious-root-at-large-psi' if (s['fun'] <= 1e-5 or not finite) else 'stalls-off-root')
+            if kind == 'not-converged' and s['nit'] < 500:
+                # the recorded finding is "the documented budget of 500 ITERATIONS is exhausted"; stopping unconverged with iterations
+                # to spare is something else (a different stopping rule or budget)
+                kind = 'stopped-unconverged-before-the-iteration-budget'
             fails.append((n, 'GEstimationSNM.search.%s-start.%s' % (s['mode'], kind), '[%d-parameter SNM] ' % dim + what, spay))
 
 
